@@ -178,6 +178,9 @@ FAMILIES = ["cage_mixture", "labelled_isolated", "charged_dt", "random_sparse", 
             "wl_hard", "peptide", "two_components"]
 
 
+BOND_TYPES = [1, 1, 1, 1, 2, 2, 3, 4, 4, 5, 6, 7, 8, 9, 10]
+
+
 def decorate(n, edges, rng, syms=None, label_p=0.15, family=""):
     atoms = []
     for i in range(n):
@@ -190,7 +193,8 @@ def decorate(n, edges, rng, syms=None, label_p=0.15, family=""):
         if rng.random() < label_p / 2:
             a["chg"] = rng.choice([-3, -2, -1, 1, 2, 3])
         atoms.append(a)
-    bonds = [(a, b, rng.choice([1, 1, 1, 2, 2, 3, 4])) for a, b in edges]
+    # every bond type of the CTfile specification: 1-3, 4 aromatic, 5-8 query types, 9 coordination, 10 hydrogen
+    bonds = [(a, b, rng.choice(BOND_TYPES)) for a, b in edges]
     return Mol(atoms, bonds, family)
 
 
